@@ -1900,3 +1900,199 @@ pub fn calculate_blob_hash(blob_data: &[u8]) -> BlobHash {""")]},
                         self.stats.cas.total_bytes -= item.blob_size;""",
               """                        self.blob_dropped(item.blob_size);""")]},
 ]
+
+
+BENIGN += [
+    # the exact-count refactor of seeded/C01b done right: the counter advances once per mapping removed
+    {"name": "b40-exact-remove-count", "patch": "benign/b40-exact-remove-count.diff"},
+]
+
+
+BENIGN += [
+    {"name": "b41-dir-lock-helper-taking-a-path",
+     "edits": [("src/cas.rs",
+                """        let lockfile = std::fs::OpenOptions::new()
+            .create(true)
+            .truncate(true)
+            .write(true)
+            .open(paths.lockfile_path())
+            .map_err(|e| LibError::Io {
+                operation: LibIoOperation::CreateLockFile,
+                path: Some(paths.lockfile_path().to_path_buf()),
+                source: e,
+            })?;
+
+        lockfile.try_lock().map_err(|_e| LibError::AlreadyOpened)?;
+""",
+                """        let lockfile = lock_exclusively(paths.lockfile_path())?;
+"""),
+               ("src/cas.rs",
+                """pub fn calculate_blob_hash(blob_data: &[u8]) -> BlobHash {""",
+                """fn lock_exclusively(lock_path: &Path) -> Result<File, LibError> {
+    let lockfile = std::fs::OpenOptions::new()
+        .create(true)
+        .truncate(true)
+        .write(true)
+        .open(lock_path)
+        .map_err(|e| LibError::Io {
+            operation: LibIoOperation::CreateLockFile,
+            path: Some(lock_path.to_path_buf()),
+            source: e,
+        })?;
+    lockfile.try_lock().map_err(|_e| LibError::AlreadyOpened)?;
+    Ok(lockfile)
+}
+
+pub fn calculate_blob_hash(blob_data: &[u8]) -> BlobHash {""")]},
+]
+
+
+BENIGN += [
+    {"name": "b42-atomic-write-file-create-sync-all",
+     "edits": [("src/io.rs",
+                """    let mut temp_file =
+        OpenOptions::new().write(true).create(true).truncate(true).open(temp_path).map_err(
+            |e| IoError::AtomicWrite {
+                step: AtomicWriteStep::CreateTemp,
+                target_path: target_path.to_path_buf(),
+                temp_path: temp_path.to_path_buf(),
+                source: e,
+            },
+        )?;
+""",
+                """    let mut temp_file = std::fs::File::create(temp_path).map_err(|e| IoError::AtomicWrite {
+        step: AtomicWriteStep::CreateTemp,
+        target_path: target_path.to_path_buf(),
+        temp_path: temp_path.to_path_buf(),
+        source: e,
+    })?;
+"""),
+               ("src/io.rs",
+                """    temp_file.sync_data().map_err(|e| IoError::AtomicWrite {
+        step: AtomicWriteStep::SyncTemp,""",
+                """    temp_file.sync_all().map_err(|e| IoError::AtomicWrite {
+        step: AtomicWriteStep::SyncTemp,""")]},
+    {"name": "b43-extract-persist-and-prune",
+     "edits": [("src/index/manager.rs",
+                """        // 2. Set the version we're about to persist
+        snapshot.last_persisted_version = Some(target_version);
+
+        let serialized_len = IndexStatePersister::new(&self.paths).save(snapshot)?;
+        snapshot.stats.index.serialized_size_bytes = serialized_len;
+        // 3. Prune segments up to the target
+        wal_guard
+            .commit_checkpoint(target_version, current_checkpoint)
+            .map_err(IndexError::ApplyWalOpWriteEntry)?;
+        tracing::info!(checkpoint_version = target_version, "Checkpoint completed successfully.");
+
+        Ok(())
+    }
+""",
+                """        self.persist_and_prune(wal_guard, snapshot, target_version, current_checkpoint)?;
+        tracing::info!(checkpoint_version = target_version, "Checkpoint completed successfully.");
+
+        Ok(())
+    }
+
+    fn persist_and_prune(
+        &self,
+        wal_guard: &mut WalManager,
+        snapshot: &mut IndexState<K>,
+        target_version: std::num::NonZeroU64,
+        previous: crate::types::CheckpointState,
+    ) -> Result<(), IndexError> {
+        // 2. Set the version we're about to persist
+        snapshot.last_persisted_version = Some(target_version);
+
+        let serialized_len = IndexStatePersister::new(&self.paths).save(snapshot)?;
+        snapshot.stats.index.serialized_size_bytes = serialized_len;
+        // 3. Prune segments up to the target
+        wal_guard.commit_checkpoint(target_version, previous).map_err(IndexError::ApplyWalOpWriteEntry)
+    }
+""")]},
+    {"name": "b44-lock-both-helper",
+     "edits": [("src/index/manager.rs",
+                """    pub fn checkpoint(&self, reason: CheckpointReason) -> Result<(), IndexError> {
+        tracing::info!(?reason, "Starting checkpoint operation.");
+
+        let mut snapshot = self.state.write();
+        let mut wal_guard = self.wal.lock();
+""",
+                """    fn lock_state_and_wal(
+        &self,
+    ) -> (parking_lot::RwLockWriteGuard<'_, IndexState<K>>, parking_lot::MutexGuard<'_, WalManager>) {
+        let state = self.state.write();
+        let wal = self.wal.lock();
+        (state, wal)
+    }
+
+    pub fn checkpoint(&self, reason: CheckpointReason) -> Result<(), IndexError> {
+        tracing::info!(?reason, "Starting checkpoint operation.");
+
+        let (mut snapshot, mut wal_guard) = self.lock_state_and_wal();
+""")],
+     "sed": [("src/index/manager.rs",
+              """            let mut state = self.state.write();
+            let mut wal = self.wal.lock();
+            let (hashes, _append_info, rolled) =""",
+              """            let (mut state, mut wal) = self.lock_state_and_wal();
+            let (hashes, _append_info, rolled) =""")]},
+]
+
+
+BENIGN += [
+    # seeded/C12b done right: sorted and de-duplicated on the same key (the hash)
+    {"name": "b45-recompute-stats-sorted-vec",
+     "edits": [("src/index/state.rs",
+                """        let mut unique =
+            HashMap::with_capacity_and_hasher(self.hash_to_ref_count.len(), Default::default());
+
+        for item in self.key_to_hash.values() {
+            unique.entry(item.blob_hash).or_insert(item.blob_size);
+        }
+
+        let unique_blobs = unique.len() as u64;
+        let total_bytes = unique.values().copied().sum::<u64>();
+""",
+                """        let mut blobs: Vec<(BlobHash, u64)> =
+            self.key_to_hash.values().map(|item| (item.blob_hash, item.blob_size)).collect();
+        blobs.sort_unstable_by_key(|&(hash, _)| hash);
+        blobs.dedup_by_key(|&mut (hash, _)| hash);
+
+        let unique_blobs = blobs.len() as u64;
+        let total_bytes = blobs.iter().map(|&(_, size)| size).sum::<u64>();
+""")]},
+    {"name": "b46-settings-init-helper-after-lock",
+     "edits": [("src/cas.rs",
+                """        // Load or create settings
+        let settings_persister = SettingsPersister::new(paths.settings_path().to_path_buf());
+        let dir_tree_is_pre_created = match settings_persister.load().map_err(LibError::Settings)? {""",
+                """        let dir_tree_is_pre_created = Self::load_or_init_settings(&paths, &config)?;
+
+        let cas_manager = Arc::new(CasManager::new(paths.clone(), dir_tree_is_pre_created));
+        let index = Index::load(db_root, config.clone()).map_err(LibError::Index)?;
+        Self::finish_new(paths, index, cas_manager, lockfile, config)
+    }
+
+    fn load_or_init_settings(paths: &paths::DbPaths, config: &Config) -> Result<bool, LibError> {
+        // Load or create settings
+        let settings_persister = SettingsPersister::new(paths.settings_path().to_path_buf());
+        let dir_tree_is_pre_created = match settings_persister.load().map_err(LibError::Settings)? {"""),
+               ("src/cas.rs",
+                """        let cas_manager = Arc::new(CasManager::new(paths.clone(), dir_tree_is_pre_created));
+        let index = Index::load(db_root, config.clone()).map_err(LibError::Index)?;
+
+        let datasync_channel""",
+                """        Ok(dir_tree_is_pre_created)
+    }
+
+    fn finish_new(
+        paths: paths::DbPaths,
+        index: Index<K>,
+        cas_manager: Arc<CasManager>,
+        lockfile: File,
+        config: Config,
+    ) -> Result<Self, LibError> {
+        let datasync_channel""")],
+     "sed": [("src/cas.rs", "                    pre_create_all_cas_directories(&paths)?;", "                    pre_create_all_cas_directories(paths)?;")]},
+]
